@@ -345,6 +345,12 @@ func (p *prop) runCorpus(c core.Case, w *core.Worker, res *core.Result) {
 	}
 	sort.Strings(paths)
 	sub := 0
+	type asked struct {
+		p     gengotypes.Package
+		fn    *types.Func
+		first string
+	}
+	var reask []asked
 	for pi, path := range paths {
 		if pi%pa.Of != pa.Shard {
 			continue
@@ -361,10 +367,29 @@ func (p *prop) runCorpus(c core.Case, w *core.Worker, res *core.Result) {
 			if fn.Type().(*types.Signature).Results().Len() > 0 {
 				res.NonTrivial("corpus|" + fn.FullName())
 			}
-			checkFunc(res, gp, fn, "corpus")
+			if r0, ok := checkFunc(res, gp, fn, "corpus"); ok && len(r0) > 0 && len(reask) < 1500 {
+				reask = append(reask, asked{gp, fn, safeString(r0)})
+			}
 			res.Inc("corpus_functions_checked")
 		}
 		res.Inc("corpus_packages_checked")
+	}
+	// the same questions again after every other package of the shard has been asked about its own functions
+	if sub >= c.Resume {
+		w.BeginSub(c.ID, sub, "re-asking the corpus sample")
+		for _, a := range reask {
+			var again gengotypes.FuncResults
+			budgetArmed, steps = true, 0
+			pk, _, _ := core.Guard(func() { again, _ = a.p.ResultsOf(a.fn) })
+			budgetArmed = false
+			if pk {
+				continue
+			}
+			res.Inc("answers_re_asked_after_other_packages_were_queried")
+			if s2 := safeString(again); s2 != a.first {
+				res.Fail("unstable", "corpus unstable-across-packages", fmt.Sprintf("%s: the answer changed after other packages had been asked about their own functions: first %s, later %s", a.fn.FullName(), a.first, s2), map[string]any{"func": a.fn.FullName()})
+			}
+		}
 	}
 	res.Sample(map[string]any{"corpus_shard": pa.Shard, "packages_in_closure": len(paths), "functions_in_shard": sub}, 1)
 }
@@ -746,6 +771,7 @@ func (p *prop) runGenerated(c core.Case, w *core.Worker, res *core.Result) {
 		}
 		sub := 0
 		funcs := allFuncs(rq)
+		firstAnswers := map[*types.Func]string{}
 		for _, fn := range funcs {
 			sub++
 			if i*10000+sub < c.Resume {
@@ -754,7 +780,9 @@ func (p *prop) runGenerated(c core.Case, w *core.Worker, res *core.Result) {
 			w.BeginSub(c.ID, i*10000+sub, fn.Name())
 			res.Evals++
 			res.NonTrivial("gen|" + fn.Name() + "|" + strconv.FormatInt(c.Seed, 10) + "|" + strconv.Itoa(i))
-			checkFunc(res, rq, fn, "generated")
+			if r0, ok := checkFunc(res, rq, fn, "generated"); ok {
+				firstAnswers[fn] = safeString(r0)
+			}
 			res.Inc("generated_functions_checked")
 		}
 		// literal-only expectations
@@ -806,6 +834,35 @@ func (p *prop) runGenerated(c core.Case, w *core.Worker, res *core.Result) {
 			w.BeginSub(c.ID, i*10000+9500, "cross:"+fn.Name())
 			checkFunc(res, rx, fn, "cross-package")
 			res.Inc("cross_package_queries")
+		}
+		// the answer is the same on every call - also after OTHER packages have been asked about their own functions
+		// in between (whatever a package indexes lazily on its first question must not change what an importer is told)
+		if i*10000+9700 >= c.Resume {
+			w.BeginSub(c.ID, i*10000+9700, "owner queries on rp")
+			for _, fn := range allFuncs(rp) {
+				core.Guard(func() { rp.ResultsOf(fn) })
+			}
+			for _, fn := range allFuncs(rx) {
+				core.Guard(func() { rx.ResultsOf(fn) })
+			}
+			w.BeginSub(c.ID, i*10000+9800, "re-asking rq")
+			for _, fn := range funcs {
+				first, ok := firstAnswers[fn]
+				if !ok {
+					continue
+				}
+				var again gengotypes.FuncResults
+				budgetArmed, steps = true, 0
+				pk, _, _ := core.Guard(func() { again, _ = rq.ResultsOf(fn) })
+				budgetArmed = false
+				if pk {
+					continue
+				}
+				res.Inc("answers_re_asked_after_other_packages_were_queried")
+				if s2 := safeString(again); s2 != first {
+					res.Fail("unstable", "generated unstable-across-packages "+shortKey(fn.FullName(), "generated"), fmt.Sprintf("%s: the answer changed after other packages had been asked about their own functions: first %s, later %s", fn.FullName(), first, s2), map[string]any{"func": fn.FullName()})
+				}
+			}
 		}
 		if i == 0 && len(g.lit) > 0 {
 			res.Sample(map[string]any{"literal_only_function": funcSource(src, g.lit[0].Func), "expected": g.lit[0].Want}, 1)
